@@ -25,7 +25,9 @@ func runPairScenario(seed int64) *scenario {
 	wc := g.newConn("c0")
 	nops := 3 + r.Intn(12)
 	for i := 0; i < nops; i++ {
-		g.step()
+		if g.safeStep() {
+			return sc
+		}
 	}
 	// close whatever writer is still open so that the stream ends at a message boundary
 	if wc.cur != nil && !wc.cur.closed {
